@@ -45,3 +45,7 @@
 ; the parts strings.Split yields, named
 (declare-fun splitLen (String String) Int)
 (declare-fun splitAt (String String Int) String)
+; a string literal's text between its quotes: one leading and one trailing apostrophe removed
+(define-fun trimQuotes ((s String)) String
+  (let ((a (ite (str.prefixof "'" s) (str.substr s 1 (- (str.len s) 1)) s)))
+    (ite (str.suffixof "'" a) (str.substr a 0 (- (str.len a) 1)) a)))
